@@ -82,6 +82,23 @@ template <int DIM> struct GenSpatialMap {
   }
 };
 
+// runs the segments in order and, after `at` of them, lets a complete OTHER evaluation run (a coarse interleaving of two
+// evaluations that use private workspaces: what a second thread could do between two segment tasks of the first)
+struct NestExecutor {
+  int at;
+  std::function<void()> hook;
+  template <typename Func> void operator()(int start, int end, Func &&f) const {
+    int done = 0;
+    bool fired = false;
+    for (int i = start; i < end; ++i) {
+      if (done == at && !fired) { fired = true; hook(); }
+      f(i);
+      done++;
+    }
+    if (!fired) hook();
+  }
+};
+
 struct PermExecutor {
   std::vector<int> order;
   template <typename Func> void operator()(int start, int end, Func &&f) const {
@@ -108,8 +125,10 @@ template <class S, class TM, class SM> struct OptCmds {
   std::map<std::string, std::unique_ptr<WS>> wsreg;
   std::map<std::string, std::unique_ptr<TM>> tmaps;
   std::map<std::string, std::unique_ptr<SM>> smaps;
+  struct NestSpec { std::string obj, pre, ws, costs, tag; std::vector<R> xs; int at = 0; bool set = false; } nest;
   // polynomial cost coefficients / perturbation (C19)
   R pc[10];
+  std::map<std::string, long> wcalls;
   std::string pert_which = "none"; int pert_idx = 0; R pert_delta = R(0.0);
   OptCmds(VM &v, SplineCmds<S> &s) : vm(v), sp(s) { for (auto &x : pc) x = R(0.0); }
   Opt &get(const std::string &n) {
@@ -142,11 +161,11 @@ template <class S, class TM, class SM> struct OptCmds {
   }
   // ------------------------------------------------------------------ cost functors
   struct TimeF {
-    OptCmds *o; std::string tag; bool poly;
+    OptCmds *o; std::string tag; bool poly; std::string rec;
     R operator()(const std::vector<R> &Ts, VX &grad) const {
-      o->vm.iout(tag + ".Ts.n", (long)Ts.size());
-      o->vm.iout(tag + ".Tg.n", (long)grad.size());
-      for (size_t i = 0; i < Ts.size(); i++) o->vm.out(tag + ".Ts." + std::to_string(i), Ts[i]);
+      o->vm.iout(rec + "@Ts.n", (long)Ts.size());
+      o->vm.iout(rec + "@Tg.n", (long)grad.size());
+      for (size_t i = 0; i < Ts.size(); i++) o->vm.out(rec + "@Ts." + std::to_string(i), Ts[i]);
       if (poly) {
         R c(0.0);
         for (size_t i = 0; i < Ts.size(); i++) {
@@ -162,11 +181,12 @@ template <class S, class TM, class SM> struct OptCmds {
     }
   };
   struct WayF {
-    OptCmds *o; std::string tag; bool poly;
+    OptCmds *o; std::string tag; bool poly; std::string rec;
     template <class WT, class GT> R operator()(const WT &W, GT &g) const {
-      o->vm.iout(tag + ".W.rows", (long)W.rows());
-      o->vm.iout(tag + ".Wg.rows", (long)g.rows());
-      for (int i = 0; i < W.rows(); i++) for (int d = 0; d < W.cols(); d++) o->vm.out(tag + ".W." + std::to_string(i) + "." + std::to_string(d), W(i, d));
+      o->vm.iout(rec + "@W.rows", (long)W.rows());
+      o->vm.iout(rec + "@Wg.rows", (long)g.rows());
+      o->vm.iout(rec + "@W.calls", ++o->wcalls[rec]);
+      for (int i = 0; i < W.rows(); i++) for (int d = 0; d < W.cols(); d++) o->vm.out(rec + "@W." + std::to_string(i) + "." + std::to_string(d), W(i, d));
       if (poly) {
         R c(0.0);
         for (int i = 0; i < W.rows(); i++) for (int d = 0; d < W.cols(); d++) {
@@ -182,18 +202,19 @@ template <class S, class TM, class SM> struct OptCmds {
     }
   };
   struct IntF {
-    OptCmds *o; std::string tag; bool poly;
+    OptCmds *o; std::string tag; bool poly; std::string rec;
     mutable std::map<int, int> counter;
     R operator()(R t, R tg, int i, const Vec &p, const Vec &v, const Vec &a, const Vec &j, const Vec &s, Vec &gp, Vec &gv, Vec &ga, Vec &gj, Vec &gs, R &gt) const {
       int k = counter[i]++;
-      std::string n = tag + "_s" + std::to_string(i) + "_k" + std::to_string(k);
+      std::string sk = "s" + std::to_string(i) + "_k" + std::to_string(k);
+      std::string n = tag + "_" + sk;      // oracle variable names: shared by evaluations that use the same tag
+      std::string rn = rec + "@" + sk;    // recorded arguments: per evaluation
       VM &vm = o->vm;
-      vm.iout(n + ".i", i);
-      vm.iout(n + ".seq", (long)vm.iouts.size());
-      vm.out(n + ".t", t); vm.out(n + ".tg", tg);
+      vm.iout(rn + ".i", i);
+      vm.out(rn + ".t", t); vm.out(rn + ".tg", tg);
       const Vec *ar[5] = {&p, &v, &a, &j, &s};
       const char *an[5] = {"p", "v", "a", "j", "s"};
-      for (int q = 0; q < 5; q++) for (int d = 0; d < DIM; d++) vm.out(n + "." + an[q] + "." + std::to_string(d), (*ar[q])(d));
+      for (int q = 0; q < 5; q++) for (int d = 0; d < DIM; d++) vm.out(rn + "." + an[q] + "." + std::to_string(d), (*ar[q])(d));
       Vec *gr[5] = {&gp, &gv, &ga, &gj, &gs};
       if (poly) {
         R c = o->pc[9] * tg;
@@ -227,7 +248,7 @@ template <class S, class TM, class SM> struct OptCmds {
   template <class EX> void doEval(Opt &o, const std::string &pre, const VX &x, WS *ws, const std::string &costs, const std::string &tag, const EX &ex) {
     VX g(x.size());  // dirty (POISON) pre-sized output
     bool poly = costs[0] == 'p';
-    TimeF tf{this, tag, poly}; WayF wf{this, tag, poly}; IntF inf{this, tag, poly};
+    TimeF tf{this, tag, poly, pre}; WayF wf{this, tag, poly, pre}; IntF inf{this, tag, poly, pre};
     R c;
     if (costs[1] == '3') c = o.evaluate(x, g, tf, wf, inf, ws, ex);
     else c = o.evaluate(x, g, tf, inf, ws, ex);
@@ -319,6 +340,11 @@ template <class S, class TM, class SM> struct OptCmds {
     }
     if (c == "opt.wsnew") { wsreg[vm.next()].reset(new WS()); return true; }
     if (c == "opt.wscopy") { std::string n = vm.next(); WS *src = wsget(vm.next()); wsreg[n].reset(new WS(*src)); return true; }
+    if (c == "opt.nestspec") {
+      // opt.nestspec O2 PRE2 <n> x.. WS2|- o3|o2|p3|p2 TAG2 AT : evaluation to run in the middle of the next `opt.eval ... nest`
+      nest.obj = vm.next(); nest.pre = vm.next(); nest.xs = vm.nextCountedVec(); nest.ws = vm.next(); nest.costs = vm.next(); nest.tag = vm.next(); nest.at = vm.nextInt(); nest.set = true;
+      return true;
+    }
     if (c == "opt.eval") {
       // opt.eval O PRE <n> x.. WS|- serial|omp|perm <m> p.. o3|o2|p3|p2 TAG
       Opt &o = get(vm.next()); std::string pre = vm.next();
@@ -332,6 +358,15 @@ template <class S, class TM, class SM> struct OptCmds {
       if (ex == "serial") doEval(o, pre, x, ws, costs, tag, SerialExecutor());
       else if (ex == "omp") doEval(o, pre, x, ws, costs, tag, OpenMPExecutor());
       else if (ex == "perm") doEval(o, pre, x, ws, costs, tag, pe);
+      else if (ex == "nest") {
+        if (!nest.set) vm.die("nest without nestspec");
+        NestSpec ns = nest;
+        hx::NestExecutor ne{ns.at, [this, ns]() {
+          VX x2(ns.xs.size()); for (size_t i = 0; i < ns.xs.size(); i++) x2((int)i) = ns.xs[i];
+          doEval(get(ns.obj), ns.pre, x2, wsget(ns.ws), ns.costs, ns.tag, SerialExecutor());
+        }};
+        doEval(o, pre, x, ws, costs, tag, ne);
+      }
       else vm.die("bad executor");
       return true;
     }
@@ -359,7 +394,7 @@ template <class S, class TM, class SM> struct OptCmds {
       WS *ws = wsget(vm.next());
       std::string costs = vm.next(); std::string tag = vm.next();
       bool poly = costs[0] == 'p';
-      TimeF tf{this, tag, poly}; WayF wf{this, tag, poly}; IntF inf{this, tag, poly};
+      TimeF tf{this, tag, poly, pre}; WayF wf{this, tag, poly, pre}; IntF inf{this, tag, poly, pre};
       typename Opt::GradientCheckResult r;
       if (vm.more()) {
         R eps = vm.nextVal(), tol = vm.nextVal();
